@@ -4,7 +4,7 @@ by the Lean evaluator), symbols of I occur in both A and B; for k ≥ 3 groups a
 import multiprocessing as mp, os, random, re
 import common, gen, runner, smtlib, certify, extsolve
 
-THEOREMS8 = ["Osmt.Properties.C08_labelled_interpolation_sound", "Osmt.Properties.C08_labelled_interpolation_symbols",
+THEOREMS8 = ["Osmt.Properties.C08_checked_refutation_interpolant", "Osmt.Properties.C08_labelled_interpolation_sound", "Osmt.Properties.C08_labelled_interpolation_symbols",
              "Osmt.Properties.C08_farkas_interpolant", "Osmt.Properties.C08_farkas_interpolant_B",
              "Osmt.Properties.C08_farkas_dual_interpolant", "Osmt.Properties.C08_certified_split", "Osmt.Smt.unsat_sound"]
 THEOREMS9 = ["Osmt.Properties.C09_path_from_splits", "Osmt.Properties.C08_certified_split", "Osmt.Smt.unsat_sound"]
@@ -121,6 +121,9 @@ def run_case(args):
     p, script, queries = from_file(idx) if isinstance(idx, str) else make_script(idx, seed, kmin, kmax)
     out, err, rc = runner.run_opensmt(binary, script, None, timeout=30)
     res = {"idx": idx, "script": script, "problems": [], "itps": 0, "queries": 0, "logic": p.logic, "stats": {}, "rejected": 0}
+    if rc == "timeout":
+        res["timeout"] = True
+        return res
     if rc not in (0, 1):
         res["problems"].append({"what": f"opensmt terminated abnormally (status {rc}): {err.strip()[-160:]}", "stderr": err[-300:],
                                 "match": "no-color-after-pop" if "No color detected for term" in err and "(pop" in script else None})
@@ -187,6 +190,162 @@ def run_case(args):
     return res
 
 
+# ---------------------------------------------------------------------------------------------------------------------
+# Mirror of the labelled interpolation systems on propositional instances: the interpolant the Lean model computes from the
+# printed proof, the partition of its leaves and the labelling system must be logically equal to the printed interpolant.
+
+def lis_case(args):
+    import itertools, c10
+    idx, seed, binary = args
+    rng = random.Random(f"c08-lis-{seed}-{idx}")
+    alg = idx % 3
+    nv = rng.randint(3, 5)
+    vs = [f"v{i}" for i in range(nv)]
+    seen, asserts = set(), []
+    for _ in range(rng.randint(3, 6)):
+        cls = []
+        for _ in range(rng.randint(1, 3)):
+            for _try in range(20):
+                lits = tuple(sorted((v, rng.random() < 0.5) for v in rng.sample(vs, rng.randint(1, 3))))
+                if lits not in seen:
+                    seen.add(lits); cls.append(lits); break
+        if cls:
+            asserts.append(cls)
+    def ctext(c):
+        ls = [f"(not {v})" if n else v for v, n in c]
+        return ls[0] if len(ls) == 1 else "(or " + " ".join(ls) + ")"
+    def atext(cls):
+        return ctext(cls[0]) if len(cls) == 1 else "(and " + " ".join(ctext(c) for c in cls) + ")"
+    names = [f"N{i}" for i in range(len(asserts))]
+    cut = rng.randint(1, len(names) - 1)
+    perm = names[:]
+    rng.shuffle(perm)
+    ga, gb = perm[:cut], perm[cut:]
+    grp = lambda g: g[0] if len(g) == 1 else "(and " + " ".join(g) + ")"
+    lines = ["(set-option :print-success true)", "(set-option :produce-interpolants true)", "(set-option :produce-proofs true)",
+             f"(set-option :interpolation-bool-algorithm {alg})", "(set-logic QF_UF)"] + [f"(declare-fun {v} () Bool)" for v in vs] + \
+            [f"(assert (! {atext(c)} :named {n}))" for c, n in zip(asserts, names)] + ["(check-sat)", "(get-proof)", f"(get-interpolants {grp(ga)} {grp(gb)})"]
+    script = "\n".join(lines) + "\n"
+    res = {"idx": idx, "script": script, "problems": [], "compared": 0, "alg": alg}
+    tp = common.WORK / f"c08-lis-{os.getpid()}.trace"
+    tp.unlink(missing_ok=True)
+    out, err, rc = runner.run_opensmt(binary, script, tp, timeout=20)
+    if rc not in (0, 1) or not tp.exists():
+        tp.unlink(missing_ok=True)
+        return res
+    try:
+        outs = smtlib.parse_sexps(out)
+    except smtlib.ParseError:
+        tp.unlink(missing_ok=True)
+        return res
+    if len(outs) != len(lines) or smtlib.sym(outs[-3]) != "unsat" or modelcheck_is_error(outs[-1]) or modelcheck_is_error(outs[-2]):
+        tp.unlink(missing_ok=True)
+        return res
+    # assertions are handed to the engine one by one and the rest is skipped once the clause set is refuted: only the
+    # assertions handed over take part in the classification of the variables
+    import trace as _trace
+    tr = _trace.Trace(tp)
+    tp.unlink(missing_ok=True)
+    given = []
+    for sid in tr.order:
+        for e in tr.solvers[sid].events:
+            if e[1] == "I" and e[2] not in given:
+                given.append(e[2])
+    ngiven = len([g for g in given]) - (1 if given else 0)       # the first root is the constant true of the base frame
+    ngiven = max(0, min(ngiven, len(asserts)))
+    sc = smtlib.Script(script)
+    try:
+        steps, root, _ = c10.parse_proof(sc.table, outs[-2])
+    except Exception as e:
+        res["problems"].append({"what": f"printed proof unreadable: {e!r}"}); return res
+    vid = {v: i + 1 for i, v in enumerate(vs)}
+    name_of = {}
+    for v in vs:
+        name_of[sc.table.term(("sym", v))] = v
+    side = {}
+    for c, n in zip(asserts, names):
+        for cl in c:
+            side[frozenset((vid[v], ng) for v, ng in cl)] = "A" if n in ga else "B"
+    # the class of a variable comes from the assertions of the two sides (as opensmt's partition masks do)
+    inA = sorted({vid[v] for c, n in list(zip(asserts, names))[:ngiven] if n in ga for cl in c for v, _ in cl})
+    inB = sorted({vid[v] for c, n in list(zip(asserts, names))[:ngiven] if n in gb for cl in c for v, _ in cl})
+    inp = [f"ALG {alg}", "INA " + " ".join(map(str, inA)), "INB " + " ".join(map(str, inB))]
+    clauses = []                                    # per node: set of (var, neg)
+    node_of_step = {}
+    def add(line, cl):
+        inp.append(line); clauses.append(cl); return len(clauses) - 1
+    for k, st in enumerate(steps):
+        if st[0] == "leaf":
+            try:
+                cl = frozenset((vid[name_of[t]], ng) for t, ng in st[1])
+            except KeyError:
+                return res                            # a literal that is not an input variable (constants): outside this mirror
+            if cl not in side:
+                return res
+            node_of_step[k] = add(f"LEAF {side[cl]} " + " ".join(str(-v if ng else v) for v, ng in sorted(cl)), cl)
+        else:
+            cur = node_of_step[st[1]]
+            for (j, piv) in st[2]:
+                other = node_of_step[j]
+                try:
+                    p = vid[name_of[piv]]
+                except KeyError:
+                    return res
+                pos, neg = (cur, other) if (p, False) in clauses[cur] else (other, cur)
+                newc = frozenset(l for l in clauses[pos] | clauses[neg] if l[0] != p)
+                cur = add(f"RES {pos} {neg} {p}", newc)
+            node_of_step[k] = cur
+    inp.append(f"ROOT {node_of_step[root]}")
+    fp = common.WORK / f"c08-lis-{os.getpid()}.in"
+    fp.write_text("\n".join(inp) + "\n")
+    mo = common.sh([str(common.model_exe()), "itp", str(fp)]).stdout.strip().split("\n")
+    fp.unlink(missing_ok=True)
+    if not mo or not mo[-1].startswith("OK "):
+        res["problems"].append({"what": f"the labelled-interpolation mirror cannot process the printed proof: {mo[-1] if mo else ''}", "input": inp})
+        return res
+    formula = smtlib.parse_sexps(mo[-1][3:])[0]
+    def ev_model(f, asg):
+        if isinstance(f, list):
+            op = smtlib.sym(f[0])
+            a, b = ev_model(f[1], asg), ev_model(f[2], asg)
+            return (a and b) if op == "and" else (a or b)
+        t = smtlib.sym(f)
+        if t == "tt": return True
+        if t == "ff": return False
+        return (not asg[int(t[1:])]) if t.startswith("-") else asg[int(t)]
+    def ev_smt(x, asg):
+        if isinstance(x, list):
+            op = smtlib.sym(x[0]); args = [ev_smt(y, asg) for y in x[1:]]
+            if op == "and": return all(args)
+            if op == "or": return any(args)
+            if op == "not": return not args[0]
+            if op == "=>": return (not args[0]) or args[1]
+            if op == "=": return args[0] == args[1]
+            if op == "xor": return args[0] != args[1]
+            if op == "ite": return args[1] if args[0] else args[2]
+            raise ValueError(op)
+        t = smtlib.sym(x)
+        if t == "true": return True
+        if t == "false": return False
+        return asg[vid[t]]
+    printed = outs[-1][0]
+    try:
+        for bits in itertools.product([False, True], repeat=nv):
+            asg = {i + 1: b for i, b in enumerate(bits)}
+            if ev_model(formula, asg) != ev_smt(printed, asg):
+                res["problems"].append({"what": f"algorithm {alg}: the printed interpolant {smtlib.unparse(printed)} differs from the interpolant of the "
+                                                f"labelled-interpolation model for the printed proof, {mo[-1][3:][:200]}, at {asg}", "mirror_input": inp})
+                break
+        res["compared"] = 1
+    except (ValueError, KeyError) as e:
+        res["problems"].append({"what": f"printed interpolant outside the propositional fragment: {e!r}"})
+    return res
+
+
+def modelcheck_is_error(sx):
+    return isinstance(sx, list) and sx and smtlib.sym(sx[0]) == "error"
+
+
 def run(tier, pid="C08"):
     chk = common.Check(pid, tier)
     chk.lean_obligations(THEOREMS8 if pid == "C08" else THEOREMS9)
@@ -211,6 +370,17 @@ def run(tier, pid="C08"):
                 continue                  # rejection of a legal request is C08's statement
             chk.violation("interpolant", f"{pr['what']} ({r['logic']})", {"script": r["script"], "problem": pr},
                           match_key=pr.get("match"))
+    if pid == "C08":
+        with mp.Pool(min(common.JOBS, 14)) as pool:
+            lres = pool.map(lis_case, [(i, chk.seed, binary) for i in range(150 if tier == "quick" else 4000)], chunksize=4)
+        ncmp = sum(r["compared"] for r in lres)
+        chk.notes["lis_mirror_interpolants_compared"] = ncmp
+        for r in lres:
+            chk.case(key=("lis", r["idx"], r["compared"]), nontrivial=r["compared"] > 0,
+                     sample={"mirror": "labelled interpolation system", "algorithm": r["alg"]} if r["compared"] and r["idx"] < 3 else None)
+            chk.obligation(not r["problems"])
+            for pr in r["problems"][:1]:
+                chk.violation("lis-mirror", pr["what"], {"script": r["script"], "problem": pr})
     chk.assumptions = ["an interpolant counts as verified only when both refutations are certified by the Lean machine "
                        "(`unsat-certified`); uncertified verdicts are counted and reported, `sat` verdicts are violations only "
                        "when the model is validated by the Lean evaluator or opensmt itself answers sat"]
